@@ -459,6 +459,10 @@ func cmdCheck(args []string) int {
 		if err := json.Unmarshal(b, &v); err != nil {
 			return fail(err.Error())
 		}
+		nativeTier = *tier
+		if v.Tier != "" { // the tier of the run that found it decides which inputs the harness admits
+			nativeTier = v.Tier
+		}
 		for _, es := range entries {
 			if es.name == v.Harness {
 				status, out := nativeReplay(ov, es, mustAbs(*replayPath), &v, 300*time.Second)
